@@ -21,6 +21,10 @@ RULE = ('enumeration of the C11 lattice (start, end in -1..16, size in '
         'sequence given by expression, literal parameters).  Non-trivial: '
         'unbounded input, or bounded with length > end shown + step size + '
         'orphan.  Tuples are distinct by construction.')
+RULE += (
+         'Also: an item guard refusing one element of the window (pull '
+         'bound, no len(), termination); unbatched loops left early by '
+         'return / exception still pull every element exactly once. ')
 ASSUMPTIONS = [
     'bound = last displayed element + step size + orphan; when size < 1 the '
     'reported sequence-step-size is used',
